@@ -259,7 +259,28 @@ func scalarKind(f *schema_j5pb.Field) (Kind, error) {
 
 // ---------------------------------------------------------------- Coq rendering
 
+// Packed selects the compact rendering of byte strings (lib/Pack.v: P len [words]%uint63),
+// which Coq reads several times faster than a list of N numerals. Files using it need
+// `From Coq Require Uint63.` and `From J5V.lib Require Import Pack.`
+var Packed = false
+
 func BytesTerm(s string) string {
+	if Packed && len(s) > 10 {
+		var sb strings.Builder
+		fmt.Fprintf(&sb, "(P %d [", len(s))
+		for k := 0; k < len(s); k += 7 {
+			var v uint64
+			for j := 0; j < 7 && k+j < len(s); j++ {
+				v |= uint64(s[k+j]) << (8 * uint(j))
+			}
+			if k > 0 {
+				sb.WriteByte(';')
+			}
+			fmt.Fprintf(&sb, "%d", v)
+		}
+		sb.WriteString("]%uint63)")
+		return sb.String()
+	}
 	var sb strings.Builder
 	sb.WriteByte('[')
 	for i := 0; i < len(s); i++ {
